@@ -687,6 +687,8 @@ class Screen(BaseScreen, RealTerminal):
                     raise ValueError(insertcs)
 
                 if isinstance(inserttext, bytes):
+                    if insertcs != "U":  # same filter as the runs written above
+                        inserttext = inserttext.translate(UNPRINTABLE_TRANS_TABLE)
                     inserttext = inserttext.decode(encoding)
 
                 output.extend(("\x08" * back, ias))  # pylint: disable=used-before-assignment  # defined in `if row`
